@@ -17,6 +17,7 @@ package main
 import (
 	"fmt"
 	"io"
+	"sort"
 	"strings"
 
 	"github.com/openconfig/goyang/pkg/indent"
@@ -47,8 +48,17 @@ func doTypes(w io.Writer, entries []*yang.Entry) {
 		types.AddEntry(e)
 	}
 
+	// types is keyed by pointer: print in the order of the rendered text
+	// so that the output is the same on every run.
+	var out []string
 	for t := range types {
-		printType(w, t, typesVerbose)
+		var b strings.Builder
+		printType(&b, t, typesVerbose)
+		out = append(out, b.String())
+	}
+	sort.Strings(out)
+	for _, s := range out {
+		io.WriteString(w, s)
 	}
 	if typesDebug {
 		for _, e := range entries {
